@@ -505,17 +505,26 @@ def drive(wd, drivebin, groups):
         os.makedirs(d, exist_ok=True)
         cmds.append((key, [drivebin, "ledger", bf, tf], d))
         files[key] = tf
-    procs = []
-    for key, c, d in cmds:
-        procs.append((key, subprocess.Popen(c, cwd=d, stdout=subprocess.PIPE, stderr=subprocess.DEVNULL, text=True)))
-    for key, p in procs:
-        try:
-            o, _ = p.communicate(timeout=1800)
-        except subprocess.TimeoutExpired:
-            p.kill()
-            raise Inconclusive("driver timed out on group %s" % key)
-        if p.returncode != 0:
-            raise Inconclusive("driver failed on group %s (rc=%s)" % (key, p.returncode))
+    # at most NCPU driver processes at a time (every book holds three in-memory badger stores)
+    pending = list(cmds)
+    running = []
+    while pending or running:
+        while pending and len(running) < NCPU:
+            key, c, d = pending.pop(0)
+            running.append((key, subprocess.Popen(c, cwd=d, stdout=subprocess.PIPE, stderr=subprocess.DEVNULL, text=True), time.time()))
+        still = []
+        for key, p, t0 in running:
+            if p.poll() is None:
+                if time.time() - t0 > 1800:
+                    p.kill()
+                    raise Inconclusive("driver timed out on group %s" % key)
+                still.append((key, p, t0))
+                continue
+            if p.returncode != 0:
+                raise Inconclusive("driver failed on group %s (rc=%s)" % (key, p.returncode))
+        running = still
+        if running:
+            time.sleep(0.1)
     return files
 
 
@@ -752,7 +761,7 @@ def check(prop, tier, finish=True):
     totals = dict(events=0, acts={}, traces=0, states=0)
     todo = behaviours
     for round_ in range(6):
-        groups = group(todo, NCPU)
+        groups = group(todo, max(NCPU, (len(todo) + 119) // 120))
         files = drive(wd, drivebin, groups)
         results = run_validation(wd, groups, files, vspec, timeout=600 if tier == "quick" else 3000)
         again = []
